@@ -220,11 +220,19 @@ package core
 //@ func (d SuDate) Millisecond() (r)
 //@   ensures! r == dMs(d)
 
-// valid: the field ranges are checked here; the day-of-month check delegates to Go's time package (assumed)
+// valid: exactly the dates of the proleptic Gregorian calendar with in-range
+// fields (year 3000 only as its first instant); the day-of-month check goes
+// through Go's time.Date, whose calendar behaviour is the assumed contract in
+// /verif/contracts/stdlib.vc
+//@ spec gLeap(y int) bool = y % 4 == 0 && (y % 100 != 0 || y % 400 == 0)
+//@ spec gDaysIn(y int, m int) int = m == 2 ? (gLeap(y) ? 29 : 28) : (m == 4 || m == 6 || m == 9 || m == 11) ? 30 : 31
+//@ func goTime(yr, mon, day, hr, min, sec, ms) (t)
+//@   inline
+//@ func (mm minmax) valid(n) (r)
+//@   ensures! r <==> mm.min <= n && n <= mm.max
 //@ func valid(yr, mon, day, hr, min, sec, ms) (r)
-//@   assumed
-//@   pure
-//@   ensures r ==> validFields(yr, mon, day, hr, min, sec, ms)
+//@   ensures! fields: r ==> validFields(yr, mon, day, hr, min, sec, ms)
+//@   ensures! gregorian: r <==> validFields(yr, mon, day, hr, min, sec, ms) && day <= gDaysIn(yr, mon) && (yr == 3000 ==> mon == 1 && day == 1 && hr == 0 && min == 0 && sec == 0 && ms == 0)
 //@ func DateTime(date, time) (r)
 //@   ensures! r == NilDate || (r.date == date && r.time == time && validDate(r))
 //@ func NewDate(yr, mon, day, hr, min, sec, ms) (r)
